@@ -59,6 +59,7 @@ def Client.IPClient_measureClockOffsetIP : List Row := [
   (1, "if c.Auth.Enabled"),  -- ClientNtp.Cfg.nts; NtsPool.request: NTS part of the request
   (2, "ntsreq, requestID = nts.NewRequestPacket(ntskeData)"),  -- Nts.newRequestPacket: Cookie[0], capped placeholders, uid := copyN 32 rnd; NtsPool.request: reqId := uid; harness c03 op cl.exch
   (2, "nts.EncodePacket(&buf, &ntsreq)"),  -- Nts.encodePacket (encodePacketG true): uid, cookie, placeholders, authenticator appended to hdr; NtsPool.request
+  (1, "cTxTimeFallback := timebase.Now()"),  -- env: clock reading taken before the send (fix 53f357f); becomes input cTx1 of ClientNtp.exchangeIP / exchangeSCION when no kernel stamp arrives; exercised by the c03 stream without kernel tx stamps (DESIGN 13.7)
   (1, "n, err := conn.WriteToUDPAddrPort(buf, remoteAddr.AddrPort())"),  -- env: send; the datagram is the output of NtsPool.request / Req; destination = ClientNtp.ntsDestination (cli.ntsdest)
   (1, "if err != nil"),  -- ClientNtp.ntsDestination: = none => this write fails (address without IP), no datagram leaves
   (2, "return time.Time{}, 0, err"),  -- ClientNtp.ErrKind.other: return before the receive loop (write); cookie already popped (NtsPool.request st')
@@ -66,7 +67,7 @@ def Client.IPClient_measureClockOffsetIP : List Row := [
   (2, "return time.Time{}, 0, errWrite"),  -- ClientNtp.ErrKind.other: return before the receive loop (write, errWrite); no def produces it
   (1, "cTxTime1, id, err := udp.ReadTXTimestamp(conn)"),  -- env: kernel TX timestamp from the error queue; result enters as argument cTx1 of ClientNtp.exchangeIP / classifyIP
   (1, "if err != nil || id != 0"),  -- env: fallback decision for cTx1 (err or id != 0; fresh socket so id is 0); model takes cTx1 as given
-  (2, "cTxTime1 = timebase.Now()"),  -- env: clock reading replaces the kernel stamp: still input cTx1 (monotonic-reading Sub is outside NtpMath.sub64, notes/C03)
+  (2, "cTxTime1 = cTxTimeFallback"),  -- env: the reading taken before the send replaces the missing kernel stamp: still input cTx1, now not later than the request's departure (fix 53f357f)
   (1, "if interleavedReq"),  -- env: metric only (reqsSentInterleaved.Inc dropped); no behaviour
   (1, "const maxNumRetries = 1"),  -- ClientNtp.maxNumRetries / NtsPool.maxNumRetries: 1 (pins C05_pin_maxNumRetries, C11_pin_maxNumRetries; x_c03.go)
   (1, "numRetries := 0"),  -- ClientNtp.exchangeIP: runLoop ... cfg.deadlineSet 0 0 evs (numRetries = 0); NtsPool.exchange: budget maxNumRetries + 1
@@ -292,6 +293,7 @@ def Client.SCIONClient_measureClockOffsetSCION : List Row := [
   (1, "if err != nil"),  -- env: serialisation result
   (2, "panic(err)"),  -- env: panic guard on serialising the client's own SCION header (no model exit)
   (1, "buffer.PushLayer(scionLayer.LayerType())"),  -- env: gopacket layer bookkeeping
+  (1, "cTxTimeFallback := timebase.Now()"),  -- env: clock reading taken before the send (fix 53f357f); becomes input cTx1 of ClientNtp.exchangeIP / exchangeSCION when no kernel stamp arrives; exercised by the c03 stream without kernel tx stamps (DESIGN 13.7)
   (1, "n, err := conn.WriteToUDPAddrPort(buffer.Bytes(), nextHop)"),  -- env: send to nextHop; payload = Req / NtsPool.request output; destination: ClientNtp.ntsDestination resp. assigned path's next hop
   (1, "if err != nil"),  -- env: write failed; result enters only as ClientNtp.ErrKind.other
   (2, "return time.Time{}, 0, err"),  -- ClientNtp.ErrKind.other: return before the receive loop (write); cookie already popped (NtsPool.request st')
@@ -299,7 +301,7 @@ def Client.SCIONClient_measureClockOffsetSCION : List Row := [
   (2, "return time.Time{}, 0, errWrite"),  -- ClientNtp.ErrKind.other: return before the receive loop (write, errWrite); no def produces it
   (1, "cTxTime1, id, err := udp.ReadTXTimestamp(conn)"),  -- env: kernel TX timestamp from the error queue; enters as argument cTx1 of ClientNtp.exchangeSCION (call itself: ListenerTx.readTX)
   (1, "if err != nil || id != 0"),  -- env: fallback decision for cTx1 (err or id != 0; fresh socket so id is 0); model takes cTx1 as given
-  (2, "cTxTime1 = timebase.Now()"),  -- env: clock reading replaces the kernel stamp: still input cTx1 (monotonic-reading Sub is outside NtpMath.sub64, notes C03)
+  (2, "cTxTime1 = cTxTimeFallback"),  -- env: the reading taken before the send replaces the missing kernel stamp: still input cTx1, now not later than the request's departure (fix 53f357f)
   (1, "if interleavedReq"),  -- env: metric only (reqsSentInterleaved.Inc dropped); no behaviour
   (1, "const maxNumRetries = 1"),  -- ClientNtp.maxNumRetries / NtsPool.maxNumRetries: 1 (pins C05_pin_maxNumRetries, C11_pin_maxNumRetries; x_c03.go)
   (1, "numRetries := 0"),  -- ClientNtp.exchangeSCION: runLoop ... cfg.deadlineSet 0 0 evs (numRetries = 0); NtsPool.exchange: budget maxNumRetries + 1
@@ -381,7 +383,7 @@ def Client.SCIONClient_measureClockOffsetSCION : List Row := [
   (4, "if err == nil"),  -- ClientNtp.classifySCIONWith: | some a, a.wellFormed
   (5, "spi, algo := scion.PacketAuthOptMetadata(authOpt)"),  -- ScionSrv.authMeta: SPI = bytes 0..3 big endian, algorithm = byte 4 (no panic: length checked) = AuthOpt.spi / AuthOpt.alg
   (5, "if spi == scion.PacketAuthSPIServer && algo == scion.PacketAuthAlgorithm"),  -- ClientNtp.classifySCIONWith: a.spi == spiServer && a.alg == algCMAC (pins C05_pin_spiServer, C05_pin_algorithm); else next
-  (6, "_, err = spao.ComputeAuthCMAC( spao.MACInput{ Key: authKey, Header: slayers.PacketAuthOption{EndToEndOption: authOpt}, ScionLayer: &scionLayer, PldType: slayers.L4UDP, Pld: buf[len(buf)-int(udpLayer.Length):]}, c.Auth.buf, c.Auth.mac)"),  -- env: spao CMAC over the received packet; verdict = AuthOpt.macOk (harness c03 gen_auth recomputes it); Pld slice safe by row 175
+  (6, "_, err = spao.ComputeAuthCMAC( spao.MACInput{ Key: authKey, Header: slayers.PacketAuthOption{EndToEndOption: authOpt}, ScionLayer: &scionLayer, PldType: slayers.L4UDP, Pld: udpLayer.Contents[:len(udpLayer.Contents)+len(udpLayer.Payload)]}, c.Auth.buf, c.Auth.mac)"),  -- ClientNtp.AuthOpt.macOk: oracle input; MAC taken over the UDP header + payload that are decoded and evaluated (fix 8b4d8f7), not the last Length bytes of the datagram; exercised by the re-framed-response stream (DESIGN 13.7)
   (6, "if err != nil"),  -- env: crypto library result; AuthOpt has only macOk : Bool, no 'MAC not computable' verdict (see next row)
   (7, "panic(err)"),  -- UNMODELLED: panic(err) if the MAC over a received packet cannot be computed; model assumes it always can (Step.panic = timestamps only)
   (6, "authenticated = subtle.ConstantTimeCompare(scion.PacketAuthOptMAC(authOpt), c.Auth.mac) != 0"),  -- ClientNtp.AuthOpt.macOk: option MAC (ScionSrv.authMAC: bytes 12..28) equals the computed one (oracle input)
